@@ -36,11 +36,11 @@ def run(tier):
   cc.model_check(rep, 'MC_Refs_getbindings', timeout=900)
   cc.model_check(rep, 'MC_Refs_kw', timeout=900)       # keyword-only / catch-all names overridden by caller keywords
   # scoped references under every ambient scope (shortest witness per (call, bindings, ambient scope))
-  cc.replay_scenarios(rep, 'GinCore_Scen_refscope', max_files=300 if tier == 'quick' else 2000, nontrivial=_nontrivial,
+  cc.replay_scenarios(rep, 'GinCore_Scen_refscope', max_files=300 if tier == 'quick' else 1200, nontrivial=_nontrivial,
                       depth=5 if tier == 'quick' else 6, timeout=200 if tier == 'quick' else 900)
   if tier == 'thorough':
     cc.replay_scenarios(rep, 'GinCore_Scen_refs', max_files=1500, nontrivial=_nontrivial, depth=4, timeout=1200)
-  n = 500 if tier == 'quick' else 6000
+  n = 500 if tier == 'quick' else 4000
   cc.replay_behaviours(rep, 'GinCore_Sim_refs', num=n, depth=14, nontrivial=_nontrivial, generate=n * 8)
   cc.trace_validate(rep, 50 if tier == 'quick' else 600, seed_off=104)
   return rep.finish()
